@@ -349,6 +349,12 @@ pub trait Inspect {
 #[cglue_forward]
 pub trait KVStore {
     fn kv_put(&mut self, k: u64, v: u64) -> u64;
+    /// same-typed parameters whose names are not in alphabetical order
+    fn kv_cell(&mut self, row: u64, col: u64, add: u64) -> u64;
+    /// provided method that every implementor overrides
+    fn kv_len(&self, scale: u64) -> u64 {
+        scale
+    }
 }
 #[cglue_trait]
 #[cglue_forward]
@@ -962,6 +968,14 @@ macro_rules! implementor {
             fn kv_put(&mut self, k: u64, v: u64) -> u64 {
                 self.core.enter("kv_put", d2(k, v), &[]);
                 self.core.mix(k ^ v.rotate_left(9))
+            }
+            fn kv_cell(&mut self, row: u64, col: u64, add: u64) -> u64 {
+                self.core.enter("kv_cell", d2(d2(row, col.rotate_left(21)), add.rotate_left(42)), &[]);
+                self.core.mix(row.wrapping_mul(31) ^ col.rotate_left(7) ^ add.rotate_left(33))
+            }
+            fn kv_len(&self, scale: u64) -> u64 {
+                self.core.enter("kv_len", scale, &[]);
+                self.core.get().wrapping_mul(scale | 1)
             }
         }
         impl KeyDumper for $name {
